@@ -116,6 +116,24 @@ func GenHistory(r *rand.Rand, o HistOpts) History {
 	nt := 1 + r.IntN(o.MaxTests)
 	names := append([]string(nil), vkit.ConfusableNames...)
 	r.Shuffle(len(names), func(i, j int) { names[i], names[j] = names[j], names[i] })
+	// two names that differ only in "/" vs "_" share their standalone files by
+	// design (C11: "/" is replaced by "_"); such a program legitimately overwrites
+	// its own snapshots, so it is not generated.
+	{
+		seen := map[string]bool{}
+		var uniq []string
+		for _, n := range names {
+			k := strings.ReplaceAll(n, "/", "_")
+			if !seen[k] {
+				seen[k] = true
+				uniq = append(uniq, n)
+			}
+		}
+		names = uniq
+	}
+	if nt > len(names) {
+		nt = len(names)
+	}
 	names = names[:nt]
 
 	// plan shapes first so header lines of every addressable slot are known to the text generator
